@@ -50,6 +50,13 @@ func (d *Decoder) ExpectTypesInInterface(types ...reflect.Type) {
 	d.expectedTypes = types
 }
 
+// ExpectedTypesInInterface returns predictions (see ExpectTypesInInterface) which are not used yet. It's
+// required for objects with custom unmarshaling, which decode a nested message by another decoder (like
+// gzip_packed): predictions are related to the nested message too.
+func (d *Decoder) ExpectedTypesInInterface() []reflect.Type {
+	return d.expectedTypes
+}
+
 func (d *Decoder) read(buf []byte) {
 	if d.err != nil {
 		return
